@@ -2509,8 +2509,13 @@ class CompressedCertificate(Certificate):
 
         try:
             if self.compression_algo == CertificateCompressionAlgorithm.zlib:
-                decompressed_msg = zlib.decompress(
-                    compressed_msg, 15, expected_length)
+                # the third argument of zlib.decompress() is the initial
+                # buffer size, not a limit: bound the output explicitly
+                dec = zlib.decompressobj(15)
+                decompressed_msg = dec.decompress(compressed_msg,
+                                                  expected_length + 1)
+                if dec.unconsumed_tail or not dec.eof or dec.unused_data:
+                    raise ValueError("Decompressed message length mismatch")
             elif self.compression_algo == \
                     CertificateCompressionAlgorithm.brotli:
                 if compression_algo_impls["brotli_accepts_limit"]:
